@@ -125,6 +125,11 @@ def connectT (host : Bytes) (port : Nat) (cred : Option (Bytes × Bytes)) : MT R
   match cred with
   | some (u, p) => let _ ← lift (mkCmd "USER" (some u)); let _ ← lift (mkCmd "PASS" (some p)); pure ()
   | none => pure ()
+  -- a connection that is still open is abandoned first: closed without TLS or TCP shutdown
+  let w0 ← getT
+  if w0.base.connected then
+    emitT (.ev w0.ctlTls .ctlClose)
+    modifyT fun w => { w with base := { w.base with connected := false } }
   -- a new connection is plain until the handshake is performed
   modifyT fun w => { w with ctlTls := false, ctlSsl := false }
   lift (do
